@@ -12,6 +12,7 @@ func init() {
 		Quick:      all("./internal/impl", "./internal/filedesc", "./internal/filetype", "./reflect/protoregistry", "./reflect/protodesc", "./types/dynamicpb"),
 		Thorough:   all("./..."),
 		Run: func(c *Ctx) {
+			c.ruleCacheCanonical("R-CACHE-CANONICAL", cacheCanonicalExempt, 5)
 			c.ruleAtomicFlags("R-ATOMIC-FLAG", concPkgs, 10)
 			c.ruleOnceGuard("R-ONCE-GUARD", concPkgs, 17)
 			c.ruleClosureSharedWrite("R-CLOSURE-SHARED-WRITE", concPkgs, 10)
@@ -26,4 +27,9 @@ func init() {
 var initBeforeUseExempt = map[string]string{
 	"internal/impl.(*MessageInfo).lazyUnmarshal": "its only init-less entry is Export.UnmarshalField, called by generated getters when a field is present but still lazy: such a message was filled by this MessageInfo's own unmarshal (which ran init()), and handing the message to another goroutine orders that init before this read",
 	"internal/impl.IsLazy":                       "exported for tests only (doc comment): inspects an already populated message from the test goroutine; not part of the concurrent first-use surface",
+}
+
+var cacheCanonicalExempt = map[string]string{
+	"internal/impl.needsInitCheckLocked publishes into needsInitCheckMap": "runs with needsInitCheckMu held (callers lock it; the suffix Locked states the contract) and stores a bool, which has no identity: all goroutines compute and observe the same value",
+	"internal/impl.(*legacyEnumType).New publishes into t.m":              "per-number cache of enum wrappers: the wrappers are value-equal (same number, type and Go type) and are compared by value, so concurrent first users that keep their own wrapper observe the same behaviour as a sequential program; only pointer identity can differ (reported by a seed agent, reviewed)",
 }
